@@ -201,6 +201,9 @@ func normaliserRule(c *Ctx, fname string, inPlace bool) {
 // cleanEdgesRule: C08-D2.
 func cleanEdgesRule(c *Ctx) {
 	normaliserDedupesTargets(c)
+	if cd := c.declQuiet("sbom.(*NodeList).cleanEdges"); cd != nil {
+		compositeKeysSeparated(c, "composite-key-separated", []*declInfo{cd})
+	}
 	const R = "normaliser-filters"
 	fname := "sbom.(*NodeList).cleanEdges"
 	c.rule(R, "in the edge normaliser: every statement that records a target for the rebuilt edges is dominated by a positive lookup of that target in the node index of the receiver; every statement that records an edge is dominated by a positive lookup of its source; the receiver's Edges are replaced on every path except when there are no edges")
@@ -568,6 +571,8 @@ func intersectRules(c *Ctx, prop string) {
 	c.rule(RA, "the surviving node is Copy() of the first operand's node, then Update(...) with the second operand's node")
 	okCopy, okUpdate := false, false
 	var newnode types.Object
+	var copyStmt ast.Stmt
+	var updateCall *ast.CallExpr
 	ast.Inspect(d.fd.Body, func(n ast.Node) bool {
 		switch s := n.(type) {
 		case *ast.AssignStmt:
@@ -581,6 +586,7 @@ func intersectRules(c *Ctx, prop string) {
 									if o := originOfIndex(d, fa.m); o.kind == "nodes" && o.operand == recv {
 										okCopy = true
 										newnode = objOf(d.pkg, s.Lhs[0])
+										copyStmt = s
 									}
 								}
 							}
@@ -596,6 +602,7 @@ func intersectRules(c *Ctx, prop string) {
 						if ix, ok := m.(*ast.IndexExpr); ok {
 							if o := originOfIndex(d, baseObj(d, ix.X)); o.kind == "nodes" && o.operand == par {
 								okUpdate = true
+								updateCall = s
 							}
 						}
 						return true
@@ -607,6 +614,41 @@ func intersectRules(c *Ctx, prop string) {
 	})
 	c.check(okCopy, RA, fname+"#copy-of-first", c.P.Pos(d.fd.Pos()), "surviving node starts as a copy of the first operand's node", "the surviving node is not created as Copy() of the first operand's node")
 	c.check(okUpdate, RA, fname+"#update-from-second", c.P.Pos(d.fd.Pos()), "then updated from the second operand's node", "the surviving node is not Update()d from the second operand's node: the second-operand-wins attribute rule does not hold")
+
+	// … for every surviving node: the update runs wherever the copy was made, not under a further
+	// condition (a notion of "unchanged" that is coarser than what Update transfers — Equal sorts
+	// lists and cuts dates to the second — keeps the first operand's value)
+	if copyStmt != nil && updateCall != nil {
+		innermostBlock := func(n ast.Node) ast.Node {
+			var blk ast.Node
+			for _, x := range enclosing(d.fd.Body, n) {
+				switch x.(type) {
+				case *ast.BlockStmt, *ast.CaseClause:
+					if x != n {
+						blk = x
+					}
+				}
+			}
+			return blk
+		}
+		cond := ""
+		cb := innermostBlock(copyStmt)
+		seenCB := false
+		for _, x := range enclosing(d.fd.Body, updateCall) {
+			if x == cb {
+				seenCB = true
+				continue
+			}
+			if !seenCB {
+				continue
+			}
+			if ifs, isIf := x.(*ast.IfStmt); isIf {
+				cond = types.ExprString(ifs.Cond)
+			}
+		}
+		c.check(seenCB && cond == "", RA, fname+"#update-unconditional", c.P.Pos(updateCall.Pos()), "the update runs for every surviving node",
+			fmt.Sprintf("the surviving node is updated from the second operand only under `%s`: where that condition fails the first operand's attributes are kept, so the second operand does not win for every attribute", cond))
+	}
 
 	// D3 edges of both operands are carried
 	const RE = "intersection-edges"
@@ -712,6 +754,7 @@ func runC08(c *Ctx) {
 	relateAddsTarget(c)
 	// extraction results are well-formed: a node enters the result once (visited-set discipline)
 	traversalGuards(c)
+	extractionWellFormed(c)
 	intersectRules(c, "C08")
 	const R = "loop-totality"
 	c.rule(R, loopRuleText)
